@@ -126,9 +126,10 @@ def main():
     nap = os.path.join(ROOT, "not_applicable.json")
     if os.path.exists(nap):
         na_reasons = json.load(open(nap))
+    ready = set(l.strip() for l in open(os.path.join(ROOT, "mc", "ready.txt")) if l.strip())
     for pid in sorted(META):
         cat, tech, text, note = META[pid]
-        if os.path.exists(os.path.join(ROOT, "mc", "checks", pid.lower() + ".py")) and pid not in na_reasons:
+        if pid in ready and os.path.exists(os.path.join(ROOT, "mc", "checks", pid.lower() + ".py")) and pid not in na_reasons:
             checks.append(
                 {
                     "property_id": pid,
